@@ -346,8 +346,7 @@ Theorem C01_traced_memo_brackets :
                     /\ (hit = true -> mid = [] /\ t' = t).
 Proof. intros. eapply memo_traced_brackets; eauto. Qed.
 
-(* ================================================================================================================
-   The engine with the REAL cache (wave 6c; Model/EngineReal.v, notes/REALCACHE.md).
+(* =========================================================================================================   The engine with the REAL cache (wave 6c; Model/EngineReal.v, notes/REALCACHE.md).
    `gmemo` is the recursion of `memo` written over a cache INTERFACE (get / store / clear + the ghost test `clossy`), with per-node
    counters; `memo_exact` is its instance with the exact-key cache above, `memo_real` its instance with src/tree/cache.rs (the
    lossy compatibility test and the nine slots of Model/Cache.v over the key projection (known_dimensions, available_space) of
@@ -479,6 +478,160 @@ Print Assumptions C01_real_fresh_valid.
 Print Assumptions C01_real_lossy_hit_refuted.
 Print Assumptions C01_real_lossy_hit_refuted_on_a_block_tree.
 End RealCache.
+=======
+(* ================================================================================================================================
+   Wave 6: the engine theorems INSTANTIATED for the complete engine of taffy -- Model/TaffyRoot.v `real_algo` = Model/TaffyEngine.v
+   `taffy_algo` with the real dispatch on (display, has_children), the block / flex / grid resumptions (block: `block_pre`, the real
+   absolute routine `abs_child_block`; grid: Model/GridAlgTotal.v, `grid_alg` wherever the Rust code does not panic) and compute_leaf_layout
+   with the node's measure function.  These are the definitions `vh taffytree` runs against TaffyTree::compute_layout_with_measure on whole
+   random mixed trees, every stored layout of every node, bit for bit (notes/TAFFYTREE.md).
+
+   Which interface hypotheses are now THEOREMS for all node kinds (no premise): WF, H1, H3, HQ.  Which is not: NS -- refuted for block
+   containers (C01_layouts_refuted_for_scribbling_algorithms is the toy form; the block algorithm stores its in-flow children's layouts while
+   sizing: known finding computesize-scribble) and for flex rows / grids with baseline-aligned children (C01_flex_algorithm_NS_refuted,
+   C01_grid_algorithm_NS_refuted in Props/C05.v); proved for every other node (`t_calm`).  What stays a premise of the instantiated theorems:
+   the EXACT memo key (`teq` = an exact equality of numbers; Model/TaffyKey.v gives the ones of binary32 and of the exact instance:
+   C01_taffy_exact_keys) -- the real cache key is lossy (known finding). *)
+From TV Require Model.Common Model.Leaf Model.FlexAlgBase Model.BlockFlexEngine Model.TaffyEngine Model.TaffyRoot Model.TaffyKey Model.TaffyExample.
+From TV Require Proofs.TaffyIface Proofs.TaffyKey Proofs.TaffyC01 Num.Num Num.F32 Num.QNum.
+From Coq Require ZArith.
+Module TaffyInstance.
+  Import ZArith.
+  Import Num.Num Model.Common Model.Leaf Model.FlexAlgBase Model.BlockFlexEngine Model.TaffyEngine Model.TaffyRoot Model.TaffyKey.
+
+  (* the interface hypotheses, for every style, child list and input; NS for calm nodes *)
+  Theorem C01_taffy_algorithms_satisfy_interface :
+    forall (T : Type) (N : Num T) (s : TStyle T) (st : list (TStyle T)) (i : FIn T),
+      WFAlg (FIn T) (LayoutOutput T) (FLay T) qi_mode (real_algo s st i) /\
+      (qi_mode i = Engine.PerformLayout -> Visits (FIn T) (LayoutOutput T) (FLay T) qi_mode (seq 0 (length st)) (real_algo s st i)) /\
+      (qi_mode i = Engine.PerformLayout ->
+       SetsLast (FIn T) (LayoutOutput T) (FLay T) (nones (TStyle T) t_is_none st) (seq 0 (length st)) (real_algo s st i)) /\
+      NoHiddenSize (FIn T) (LayoutOutput T) (FLay T) qi_mode (nones (TStyle T) t_is_none st) (real_algo s st i) /\
+      (t_calm s = true -> Forall (fun c => t_calm c = true) st -> qi_mode i = Engine.ComputeSize ->
+       SizeOnly (FIn T) (LayoutOutput T) (FLay T) qi_mode (real_algo s st i)).
+  Proof.
+    intros T N s st i. split; [apply TaffyIface.real_algo_WF|]. split; [apply TaffyIface.real_algo_H1|].
+    split; [apply TaffyIface.real_algo_H3|]. split; [apply TaffyIface.real_algo_HQ|apply TaffyIface.real_algo_NS_partial].
+  Qed.
+  Print Assumptions C01_taffy_algorithms_satisfy_interface.
+
+  (* the representation equalities of binary32 (what the exact-key hook compares: the Debug string of the input) and of the exact
+     instance make EXACT memo keys *)
+  Theorem C01_taffy_exact_keys :
+    (forall a b : FIn F32.f32, fin_eqb_with f32_seqb a b = true -> a = b) /\
+    (forall a b : FIn QNum.XQ, fin_eqb_with xq_seqb a b = true -> a = b).
+  Proof. split; [apply TaffyKey.fin_eqb_with_eq; exact TaffyKey.f32_seqb_eq|apply TaffyKey.fin_eqb_with_eq; exact TaffyKey.xq_seqb_eq]. Qed.
+  Print Assumptions C01_taffy_exact_keys.
+
+  (* C01_root_output_equals_fresh for the complete engine: after ANY history of mutators (at nodes without a display:none ancestor) and
+     layout passes, a further evaluation of the root returns what the freshly built tree returns.  No premise about the algorithms. *)
+  Theorem C01_taffy_engine_root_output_equals_fresh :
+    forall (T : Type) (N : Num T) (teq : T -> T -> bool),
+      (forall a b, teq a b = true -> a = b) ->
+      forall t0 ops f f' i o o' t1 t2,
+        Inv (TStyle T) (FIn T) (LayoutOutput T) (FLay T) qi_mode t_is_none output_HIDDEN real_algo t0 ->
+        run_ok (TStyle T) (FIn T) (LayoutOutput T) (FLay T) qi_mode (fin_eqb_with teq) t_is_none output_HIDDEN (f_with_order 0) real_algo t0 ops ->
+        memo (TStyle T) (FIn T) (LayoutOutput T) (FLay T) qi_mode (fin_eqb_with teq) t_is_none output_HIDDEN (f_with_order 0) real_algo f
+             (run_ops (TStyle T) (FIn T) (LayoutOutput T) (FLay T) qi_mode (fin_eqb_with teq) t_is_none output_HIDDEN (f_with_order 0) real_algo t0 ops) i
+          = Some (o, t1) ->
+        memo (TStyle T) (FIn T) (LayoutOutput T) (FLay T) qi_mode (fin_eqb_with teq) t_is_none output_HIDDEN (f_with_order 0) real_algo f'
+             (fresh (TStyle T) (FIn T) (LayoutOutput T) (FLay T) (f_with_order 0)
+                    (skel (TStyle T) (FIn T) (LayoutOutput T) (FLay T)
+                          (run_ops (TStyle T) (FIn T) (LayoutOutput T) (FLay T) qi_mode (fin_eqb_with teq) t_is_none output_HIDDEN (f_with_order 0) real_algo t0 ops))) i
+          = Some (o', t2) ->
+        o = o'.
+  Proof. intros T N teq Hk. apply TaffyC01.taffy_root_output_equals_fresh. exact Hk. Qed.
+  Print Assumptions C01_taffy_engine_root_output_equals_fresh.
+
+  (* ... and with compute_root_layout on top (Model/TaffyRoot.v: the known dimensions of the root, the one query, the root's own Layout):
+     the ROOT's stored layout after the history equals the one on the freshly built tree *)
+  Theorem C01_taffy_compute_root_equals_fresh :
+    forall (T : Type) (N : Num T) (teq : T -> T -> bool),
+      (forall a b, teq a b = true -> a = b) ->
+      forall t0 ops f f' avail r1 r2,
+        Inv (TStyle T) (FIn T) (LayoutOutput T) (FLay T) qi_mode t_is_none output_HIDDEN real_algo t0 ->
+        run_ok (TStyle T) (FIn T) (LayoutOutput T) (FLay T) qi_mode (fin_eqb_with teq) t_is_none output_HIDDEN (f_with_order 0) real_algo t0 ops ->
+        real_compute_root teq f
+          (run_ops (TStyle T) (FIn T) (LayoutOutput T) (FLay T) qi_mode (fin_eqb_with teq) t_is_none output_HIDDEN (f_with_order 0) real_algo t0 ops) avail
+          = Some r1 ->
+        real_compute_root teq f'
+          (taffy_fresh (skel (TStyle T) (FIn T) (LayoutOutput T) (FLay T)
+                             (run_ops (TStyle T) (FIn T) (LayoutOutput T) (FLay T) qi_mode (fin_eqb_with teq) t_is_none output_HIDDEN (f_with_order 0) real_algo t0 ops)))
+          avail = Some r2 ->
+        lay_of (TStyle T) (FIn T) (LayoutOutput T) (FLay T) r1 = lay_of (TStyle T) (FIn T) (LayoutOutput T) (FLay T) r2.
+  Proof. intros T N teq Hk. apply TaffyC01.taffy_compute_root_equals_fresh. exact Hk. Qed.
+  Print Assumptions C01_taffy_compute_root_equals_fresh.
+
+  (* computed, on a mixed tree over the exact instance (Model/TaffyExample.v: block root over a flex row, a grid with a display:none and a
+     measured child, an absolute leaf; history: layout, set_style on the flex container, mark_dirty below the grid, layout): the premises
+     hold, both evaluations succeed and return the same non-trivial output (200 x 40), and the history's tree is not the fresh one (its
+     root is clean) *)
+  Example C01_taffy_engine_example :
+    (forall a b, TaffyExample.x_eqb a b = true -> a = b) /\
+    Inv (TStyle QNum.XQ) (FIn QNum.XQ) (LayoutOutput QNum.XQ) (FLay QNum.XQ) qi_mode t_is_none output_HIDDEN real_algo
+        (taffy_fresh TaffyExample.ex_tree) /\
+    run_ok (TStyle QNum.XQ) (FIn QNum.XQ) (LayoutOutput QNum.XQ) (FLay QNum.XQ) qi_mode TaffyExample.x_eqb t_is_none output_HIDDEN (f_with_order 0) real_algo
+           (taffy_fresh TaffyExample.ex_tree) TaffyExample.ex_ops /\
+    option_map fst (TaffyExample.ex_memo 8 TaffyExample.ex_run (TaffyExample.ex_input 210%Z)) =
+    option_map fst (TaffyExample.ex_memo 8 (taffy_fresh (skel _ _ _ _ TaffyExample.ex_run)) (TaffyExample.ex_input 210%Z)) /\
+    option_map (fun r => out_size (fst r)) (TaffyExample.ex_memo 8 TaffyExample.ex_run (TaffyExample.ex_input 210%Z)) =
+    Some (mkSize (TaffyExample.xq 200%Z) (TaffyExample.xq 40%Z)) /\
+    dirty _ _ _ _ TaffyExample.ex_run = false /\ dirty _ _ _ _ (taffy_fresh (skel _ _ _ _ TaffyExample.ex_run)) = true.
+  Proof.
+    split; [apply TaffyKey.fin_eqb_with_eq; exact TaffyKey.xq_seqb_eq|]. split; [apply Inv_fresh|].
+    split; [vm_compute; repeat split|]. split; [vm_compute; reflexivity|]. split; [vm_compute; reflexivity|].
+    split; vm_compute; reflexivity.
+  Qed.
+
+  (* C01_layouts_equal_fresh_for_nonscribbling_algorithms for the complete engine on CALM trees (Model/TaffyRoot.v `CalmStyle`: every node's
+     display is flex, grid or none and neither align_items nor align_self is baseline -- the subtype, so every mutation of the history stays in
+     the class): the stored layouts of every node below the root equal those of a fresh pass.  `_partial`: trees with block nodes or baseline
+     alignment are excluded (there NS is refuted, and the statement with it: known finding computesize-scribble); the root's own layout is
+     C01_taffy_compute_root_equals_fresh. *)
+  Theorem C01_taffy_engine_layouts_equal_fresh_partial :
+    forall (T : Type) (N : Num T) (teq : T -> T -> bool),
+      (forall a b, teq a b = true -> a = b) ->
+      forall t0 ops f f' i o o' t1 t2,
+        Inv CalmStyle (FIn T) (LayoutOutput T) (FLay T) qi_mode calm_is_none output_HIDDEN calm_algo t0 ->
+        Coh CalmStyle (FIn T) (LayoutOutput T) (FLay T) qi_mode calm_is_none output_HIDDEN (f_with_order 0) calm_algo t0 ->
+        run_ok_l CalmStyle (FIn T) (LayoutOutput T) (FLay T) qi_mode (fin_eqb_with teq) calm_is_none output_HIDDEN (f_with_order 0) calm_algo t0 ops ->
+        qi_mode i = Engine.PerformLayout ->
+        memo CalmStyle (FIn T) (LayoutOutput T) (FLay T) qi_mode (fin_eqb_with teq) calm_is_none output_HIDDEN (f_with_order 0) calm_algo f
+             (run_ops CalmStyle (FIn T) (LayoutOutput T) (FLay T) qi_mode (fin_eqb_with teq) calm_is_none output_HIDDEN (f_with_order 0) calm_algo t0 ops) i
+          = Some (o, t1) ->
+        memo CalmStyle (FIn T) (LayoutOutput T) (FLay T) qi_mode (fin_eqb_with teq) calm_is_none output_HIDDEN (f_with_order 0) calm_algo f'
+             (fresh CalmStyle (FIn T) (LayoutOutput T) (FLay T) (f_with_order 0)
+                    (skel CalmStyle (FIn T) (LayoutOutput T) (FLay T)
+                          (run_ops CalmStyle (FIn T) (LayoutOutput T) (FLay T) qi_mode (fin_eqb_with teq) calm_is_none output_HIDDEN (f_with_order 0) calm_algo t0 ops))) i
+          = Some (o', t2) ->
+        o = o' /\ lkids (FLay T) (lays CalmStyle (FIn T) (LayoutOutput T) (FLay T) t1) = lkids (FLay T) (lays CalmStyle (FIn T) (LayoutOutput T) (FLay T) t2).
+  Proof. intros T N teq Hk. apply TaffyC01.calm_layouts_equal_fresh. exact Hk. Qed.
+  Print Assumptions C01_taffy_engine_layouts_equal_fresh_partial.
+
+  (* computed, on a calm mixed tree (flex column over a grid with a display:none and a measured child and a flex row; history: layout,
+     set_style on the inner flex container, mark_dirty below the grid, layout): the premises hold, both passes succeed with output 120 x 40,
+     and a stored layout two levels down is non-trivial (the second child of the restyled flex container sits at y = 20) *)
+  Example C01_taffy_engine_layouts_example :
+    Inv CalmStyle (FIn QNum.XQ) (LayoutOutput QNum.XQ) (FLay QNum.XQ) qi_mode calm_is_none output_HIDDEN calm_algo
+        (TaffyExample.calm_fresh TaffyExample.calm_tree) /\
+    Coh CalmStyle (FIn QNum.XQ) (LayoutOutput QNum.XQ) (FLay QNum.XQ) qi_mode calm_is_none output_HIDDEN (f_with_order 0) calm_algo
+        (TaffyExample.calm_fresh TaffyExample.calm_tree) /\
+    run_ok_l CalmStyle (FIn QNum.XQ) (LayoutOutput QNum.XQ) (FLay QNum.XQ) qi_mode TaffyExample.x_eqb calm_is_none output_HIDDEN (f_with_order 0) calm_algo
+             (TaffyExample.calm_fresh TaffyExample.calm_tree) TaffyExample.calm_ops /\
+    qi_mode (TaffyExample.calm_input 100%Z) = Engine.PerformLayout /\
+    option_map fst (TaffyExample.calm_memo 8 TaffyExample.calm_run (TaffyExample.calm_input 100%Z)) =
+    option_map fst (TaffyExample.calm_memo 8 (TaffyExample.calm_fresh (skel _ _ _ _ TaffyExample.calm_run)) (TaffyExample.calm_input 100%Z)) /\
+    option_map (fun r => out_size (fst r)) (TaffyExample.calm_memo 8 TaffyExample.calm_run (TaffyExample.calm_input 100%Z)) =
+    Some (mkSize (TaffyExample.xq 120%Z) (TaffyExample.xq 40%Z)) /\
+    option_map (fun r => option_map (fun k => option_map (fun g => fl_location (lay_of _ _ _ _ g)) (nth_error (kids_of _ _ _ _ k) 1))
+                                    (nth_error (kids_of _ _ _ _ (snd r)) 1))
+               (TaffyExample.calm_memo 8 TaffyExample.calm_run (TaffyExample.calm_input 100%Z))
+    = Some (Some (Some (mkPoint (TaffyExample.xq 0%Z) (TaffyExample.xq 20%Z)))).
+  Proof.
+    split; [apply Inv_fresh|]. split; [apply Coh_fresh|]. split; [vm_compute; repeat split|]. split; [reflexivity|].
+    split; [vm_compute; reflexivity|]. split; vm_compute; reflexivity.
+  Qed.
+End TaffyInstance.
 
 Print Assumptions C01_memo_sound.
 Print Assumptions C01_root_output_equals_fresh.
